@@ -425,6 +425,16 @@ def leftover_files(chk, tmp):
         "pt_tempo_compute(process_tensor_file, overwrite=False)": lambda fn: oqupy.pt_tempo_compute(bath, 0.0, 0.2, parameters=par, process_tensor_file=fn,
                                                                                                 overwrite=False, progress_type="silent"),
         "PtTempo(process_tensor_file, overwrite=False)": lambda fn: oqupy.PtTempo(bath, 0.0, 0.2, par, process_tensor_file=fn, overwrite=False),
+        # "not requested" in the other ways a caller can say it: the default, a numpy boolean (a flag computed from or read out of an array),
+        # None, 0
+        "SimpleProcessTensor.export()": lambda fn: simple().export(fn),
+        "SimpleProcessTensor.export(overwrite=numpy.False_)": lambda fn: simple().export(fn, overwrite=np.False_),
+        "SimpleProcessTensor.export(overwrite=numpy.all([True, False]))": lambda fn: simple().export(fn, overwrite=np.all([True, False])),
+        "SimpleProcessTensor.export(overwrite=None)": lambda fn: simple().export(fn, overwrite=None),
+        "SimpleProcessTensor.export(overwrite=0)": lambda fn: simple().export(fn, overwrite=0),
+        "pt_tempo_compute(process_tensor_file)": lambda fn: oqupy.pt_tempo_compute(bath, 0.0, 0.2, parameters=par, process_tensor_file=fn, progress_type="silent"),
+        "pt_tempo_compute(process_tensor_file, overwrite=numpy.False_)": lambda fn: oqupy.pt_tempo_compute(bath, 0.0, 0.2, parameters=par, process_tensor_file=fn,
+                                                                                                        overwrite=np.False_, progress_type="silent"),
     }
     k = 0
     for kind, content in kinds.items():
